@@ -74,7 +74,28 @@ def _write_if_changed(path, data):
 
 
 def overlay_dir(name):
+    # a run on another source tree (VERIF_REPO, used for mutation tests) gets overlays of its own
+    if REPO != "/repo":
+        name = "%s-%s" % (name, hashlib.sha1(os.path.abspath(REPO).encode()).hexdigest()[:8])
     return os.path.join(WORK, "ov", name)
+
+
+class overlay_lock:
+    """Exclusive lock on one overlay: sync + compile of the same overlay must not interleave between processes."""
+    def __init__(self, name):
+        self.path = overlay_dir(name) + ".lock"
+
+    def __enter__(self):
+        import fcntl
+        os.makedirs(os.path.dirname(self.path), exist_ok=True)
+        self.f = open(self.path, "w")
+        fcntl.flock(self.f, fcntl.LOCK_EX)
+        return self
+
+    def __exit__(self, *a):
+        import fcntl
+        fcntl.flock(self.f, fcntl.LOCK_UN)
+        self.f.close()
 
 
 def build_overlay(name, groups=()):
